@@ -249,7 +249,7 @@ def c15(run):
                     mm = re.search(r'"e":\s*"Upd".*?"x":\s*(\d+)', line)
                     if mm:
                         syms.add(int(mm.group(1)))
-            if len(syms) < (1 if pat == "single" else 20):
+            if len(syms) < {"single": 1, "fib": 5}.get(pat, 20):           # (fib: the weights of about ten symbols form the Fibonacci ladder)
                 raise MachineryError(f"vacuity: history '{pat}' updated only {len(syms)} distinct symbols")
         v = validate(run, "Trace_Huffman", log, f"C15.history/{pat}", constants={"NSym": 314, "MaxCount": 65535}, what="update history")
     run.sample({"history": "single x 65300", "events": "Upd(x, ok, path) per update, Table(paths of all symbols) every 4096 updates"})
